@@ -8,7 +8,9 @@ def explore(seed, tier):
         return [{'what': 'subcomm harness does not compile against the current headers', 'log': (err or '')[-1500:]}], 0
     cfgs = [(2, 2, 'uniform', 'NONE'), (3, 1, 'late', 'NR'), (4, 2, 'early', 'NLNR'), (5, 5, 'uniform', 'NONE')]
     if tier != 'quick':
-        cfgs += [(6, 2, 'late', 'NLNR'), (6, 3, 'uniform', 'NR'), (7, 1, 'starve', 'NONE'), (8, 4, 'delayreduce', 'NLNR'), (1, 1, 'uniform', 'NONE')]
+        # (ranks per node even, 1, or a single node: the odd / even halves then have the same number of ranks on every node -
+        # ygm's layout and routers are defined for uniform layouts only)
+        cfgs += [(6, 2, 'late', 'NLNR'), (8, 2, 'uniform', 'NR'), (7, 1, 'starve', 'NONE'), (8, 4, 'delayreduce', 'NLNR'), (1, 1, 'uniform', 'NONE'), (3, 3, 'early', 'NR')]
     fails, nmsg = [], 0
     K = 3
     for i, (n, ppn, pol, rt) in enumerate(cfgs):
